@@ -160,6 +160,37 @@ resolver:
   filename_template: "{name}.resolvers.go"
 `
 
+const wideConfig = `schema:
+  - "*.graphqls"
+exec:
+  filename: graph/generated.go
+  package: graph
+model:
+  filename: graph/model/models_gen.go
+  package: model
+resolver:
+  layout: single-file
+  filename: graph/resolver.go
+  package: graph
+  type: Resolver
+struct_fields_always_pointers: false
+`
+
+func wideSchema() string {
+	var b strings.Builder
+	var members, q []string
+	for k := 0; k < 7; k++ {
+		fmt.Fprintf(&b, "type Order%d implements Node & Stamped { id: ID! at: Int! billing: Party%d! shipping: Party%d! third: Party%d! }\n", k, k, k, k)
+		fmt.Fprintf(&b, "type Party%d implements Node { id: ID! order: Order%d! kind: Kind%d }\n", k, k, k)
+		fmt.Fprintf(&b, "enum Kind%d { A%d B%d }\ninput In%d { k: Kind%d = A%d next: [In%d!] }\ndirective @d%d(x: Int = %d) on FIELD_DEFINITION\n", k, k, k, k, k, k, k, k, k)
+		fmt.Fprintf(&b, "type Self%d { me: Self%d! other: Self%d }\n", k, k, (k+1)%7)
+		members = append(members, fmt.Sprintf("Order%d", k), fmt.Sprintf("Party%d", k))
+		q = append(q, fmt.Sprintf("  order%d(in: In%d): Order%d! @d%d", k, k, k, k), fmt.Sprintf("  self%d: Self%d", k, k))
+	}
+	fmt.Fprintf(&b, "interface Node { id: ID! }\ninterface Stamped { at: Int! }\nunion Any = %s\ntype Query {\n%s\n  any: [Any!]! node: Node stamped: Stamped\n}\n", strings.Join(members, " | "), strings.Join(q, "\n"))
+	return b.String()
+}
+
 func Run(c *gen.Ctx) error {
 	r := gen.NewRand(c.Seed)
 	meta := &gen.Meta{Property: "C18", Distribution: map[string]any{}}
@@ -173,6 +204,9 @@ func Run(c *gen.Ctx) error {
 		"a/s.graphqls": "directive @da on FIELD_DEFINITION\ntype Query { a: String @da  user_profile: user_profile }\ntype user_profile { x: Int }\nenum E1 { foo_bar FooBar }\n",
 		"b/s.graphqls": "directive @db on FIELD_DEFINITION\nextend type Query { b: String @db  up: UserProfile }\ntype UserProfile { y: Int }\ninput In2 { a: Int }\ninput In1 { b: Int }\n",
 	}})
+	// passes that walk the types before they are sorted: value-typed struct fields with asymmetric non-null cycles,
+	// interfaces with many implementors, unions with many members, many enums / inputs / directives
+	projects = append(projects, projectSpec{Name: "wide-value-cycles", Config: wideConfig, Schema: map[string]string{"wide.graphqls": wideSchema()}})
 	pr := r.Fork(1)
 	for i := 0; i < n; i++ {
 		s, _ := c17.Generate(pr)
